@@ -7,7 +7,7 @@
 #include <stdio.h>
 
 #define NTHREADS 16
-static pixman_image_t *shared, *shared_grad, *shared_clipped;
+static pixman_image_t *shared, *shared_grad, *shared_clipped, *shared_acc;
 static pthread_barrier_t bar;
 static int rounds = 40;
 
@@ -15,7 +15,7 @@ static void *worker(void *v)
 {
     int tid = (int)(intptr_t)v;
     for (int r = 0; r < rounds; r++) {
-        tctx_t t; body_setup(&t, tid % 3, shared); t.shared_grad = shared_grad; t.shared_clipped = shared_clipped;
+        tctx_t t; body_setup(&t, tid % 3, shared); t.shared_grad = shared_grad; t.shared_clipped = shared_clipped; t.shared_acc = shared_acc;
         pthread_barrier_wait(&bar);
         for (int k = 0; k < N_BODY_OPS; k++) body_run(&t, (k + tid + r) % N_BODY_OPS);
         body_teardown(&t);
@@ -37,12 +37,20 @@ int main(int argc, char **argv)
     static uint32_t cpix[DW * DH];
     shared_clipped = body_make_shared_clipped(cpix);
     pixman_image_composite32(PIXMAN_OP_OVER, shared_clipped, NULL, d, 1, 0, 0, 0, 0, 0, DW, DH);
+    static uint32_t apix[DW * DH];
+    shared_acc = body_make_shared_acc(apix);
+    pixman_image_composite32(PIXMAN_OP_OVER, shared_acc, NULL, d, 0, 0, 0, 0, 0, 0, DW, DH);
     pixman_image_unref(d);
     pthread_barrier_init(&bar, NULL, NTHREADS);
     pthread_t th[NTHREADS];
     for (int i = 0; i < NTHREADS; i++) pthread_create(&th[i], NULL, worker, (void *)(intptr_t)i);
     for (int i = 0; i < NTHREADS; i++) pthread_join(th[i], NULL);
-    pixman_image_unref(shared); pixman_image_unref(shared_grad); pixman_image_unref(shared_clipped);
+    int refs_bad = 0;
+    if (!pixman_image_unref(shared)) refs_bad |= 1;
+    if (!pixman_image_unref(shared_grad)) refs_bad |= 2;
+    if (!pixman_image_unref(shared_clipped)) refs_bad |= 4;
+    if (!pixman_image_unref(shared_acc)) refs_bad |= 8;
+    if (refs_bad) printf("SHARED-IMAGE-STILL-REFERENCED mask=%d (the harness held the only reference to each shared image)\n", refs_bad);
     printf("TSAN-PASS-DONE threads=%d rounds=%d ops=%d\n", NTHREADS, rounds, NTHREADS * rounds * N_BODY_OPS);
     return 0;
 }
